@@ -9,7 +9,8 @@
 //         accelerations equal those of the same State with nothing prescribed)
 //   MB <seed> <mobtype> <mkind> <euler>   Motion on a Ball / Free / Gimbal / Bushing / Ellipsoid (see runMB)
 //   LOCK <id> then op lines, END   lock state machine on a Pin (body 1) of a 2-body chain; ops:
-//        LK lev | LA lev x | UL | Q x | U x | ME b | PR t      (values x are hexadecimal or decimal doubles)
+//        LK lev | LA lev x | UL | Q x | U x | ME b | PR t | RS (take a new default State)     (values x: doubles)
+//      header: LOCK <id> <lockByDefault level or -1> <default angle>; the status of the default State is printed first
 //      after each op prints  L <level> <lockvalue or -> <q> <u> <udot prescribed or ->   with %a doubles
 #include "Simbody.h"
 #include <cstdio>
@@ -41,6 +42,8 @@ static void runSys(int seed, int kind, int cons) {
     if (kind == 1) { Motion::Sinusoid(b4, Motion::Velocity, A, w, ph); level = 1; }
     if (kind == 2) { Motion::Sinusoid(b3, Motion::Acceleration, A, w, ph); level = 0; }
     if (kind == 3) { Motion::Steady(b4, rate); level = 1; }
+    if (kind == 8) { Motion::Sinusoid(b4, Motion::Velocity, A, w, ph); level = 1; }      // + a 3-dof Gimbal locked at Velocity (below)
+    if (kind == 9) { b3.lockByDefault(Motion::Position); b1.lockByDefault(Motion::Acceleration); level = 2; }   // locks by default
     if (cons) Constraint::Rod(b3, rv(), b4, rv(), 1.1);
     State s = sys.realizeTopology(); sys.realizeModel(s);
     for (int i = 0; i < s.getNQ(); ++i) s.updQ()[i] = 0.4 * rnd.getValue() + 0.2;
@@ -49,11 +52,12 @@ static void runSys(int seed, int kind, int cons) {
     if (kind == 5) { b4.lock(s, Motion::Velocity); level = 1; }
     if (kind == 6) { b3.lockAt(s, lockv, Motion::Acceleration); level = 0; }
     if (kind == 7) { b3.lockAt(s, lockv, Motion::Velocity); level = 1; }
+    if (kind == 8) { b2.lock(s, Motion::Velocity); }
     const Real u4before = b4.getOneU(s, 0);
     s.setTime(t);
     sys.realize(s, Stage::Time); sys.prescribe(s);
     sys.realize(s, Stage::Acceleration);
-    const MobilizedBody& pb = (kind == 1 || kind == 3 || kind == 5) ? (const MobilizedBody&)b4 : (const MobilizedBody&)b3;
+    const MobilizedBody& pb = (kind == 1 || kind == 3 || kind == 5 || kind == 8) ? (const MobilizedBody&)b4 : (const MobilizedBody&)b3;
     const Real q = pb.getOneQ(s, 0), u = pb.getOneU(s, 0), ud = pb.getOneUDot(s, 0);
     const Real e0 = maxabs(matter.calcMotionErrors(s, Stage::Position)), e1 = maxabs(matter.calcMotionErrors(s, Stage::Velocity)),
                e2 = maxabs(matter.calcMotionErrors(s, Stage::Acceleration));
@@ -74,9 +78,27 @@ static void runSys(int seed, int kind, int cons) {
     for (MobilizedBodyIndex b(1); b < matter.getNumBodies(); ++b) { const MobilizedBody& mb = matter.getMobilizedBody(b); if (mb.hasMotion()) mb.getMotion().disable(g); mb.unlock(g); }
     g.setTime(f.getTime()); g.updQ() = f.getQ(); g.updU() = f.getU(); sys.realize(g, Stage::Acceleration);
     const Real freeerr = (g.getUDot() - f.getUDot()).norm() / (1 + g.getUDot().norm());
-    const Real p1 = (kind == 3) ? rate : (kind >= 4 && kind != 7) ? (kind == 5 ? u4before : lockv) : (kind == 7 ? lockv : A);
+    const Real p1 = (kind == 3) ? rate : (kind == 8) ? A : (kind == 9) ? 0.0 : (kind >= 4 && kind != 7) ? (kind == 5 ? u4before : lockv) : (kind == 7 ? lockv : A);
     printf("PM %d %d %d %a %a %a %a %a %a %a %.3g %.3g %.3g %.3g %.3g %.3g nq=%d ntau=%d\n", seed, kind, level, p1, w, ph, t, q, u, ud, e0, e1, e2, cert, certWrong, freeerr,
            s.getNQ(), tau.size());
+    // ---- multipliers (packed), motion forces (u-space), motion power, and the power balance
+    const Vector& mult = matter.getMotionMultipliers(s);
+    printf("MP %d %d |", seed, kind);
+    for (MobilizedBodyIndex b(1); b < matter.getNumBodies(); ++b) { const MobilizedBody& mb = matter.getMobilizedBody(b);
+        printf(" %d %d", mb.getNumU(s), mb.getUDotMotionMethod(s) == Motion::Free ? 1 : 0); }
+    printf(" |"); for (int i = 0; i < mult.size(); ++i) printf(" %a", mult[i]);
+    printf(" |"); for (int i = 0; i < tau.size(); ++i) printf(" %a", tau[i]);
+    printf(" |"); for (int i = 0; i < s.getNU(); ++i) printf(" %a", s.getU()[i]);
+    const Real pmot = matter.calcMotionPower(s), pcons = matter.calcConstraintPower(s);
+    Real papp = ~sys.getMobilityForces(s, Stage::Dynamics) * s.getU();
+    const Vector_<SpatialVec>& FB = sys.getRigidBodyForces(s, Stage::Dynamics);
+    for (MobilizedBodyIndex b(1); b < matter.getNumBodies(); ++b) { const SpatialVec& V = matter.getMobilizedBody(b).getBodyVelocity(s); papp += ~FB[b][0] * V[0] + ~FB[b][1] * V[1]; }
+    // d/dt KE by a central difference along the motion (q + h qdot + h^2/2 qdotdot, u + h udot)
+    const Real h = 1e-4; Real ke[2];
+    for (int k = 0; k < 2; ++k) { const Real hh = k ? h : -h; State z = s;
+        z.updQ() = s.getQ() + hh * s.getQDot() + (hh * hh / 2) * s.getQDotDot(); z.updU() = s.getU() + hh * s.getUDot();
+        sys.realize(z, Stage::Velocity); ke[k] = sys.calcKineticEnergy(z); }
+    printf(" | %a %a %a %a\n", pmot, papp, pcons, (ke[1] - ke[0]) / (2 * h));
 }
 
 // Motion on a multi-coordinate mobilizer between two Pins: mobtype 0 Ball, 1 Free, 2 Gimbal, 3 Bushing, 4 Ellipsoid;
@@ -135,18 +157,23 @@ int main() {
         else if (op == "MB") { int seed, mt, mk, eu; in >> seed >> mt >> mk >> eu;
             try { runMB(seed, mt, mk, eu); } catch (const std::exception& e) { std::string m = e.what(); for (char& c : m) if (c == '\n') c = ' '; printf("MBTHROW %d %d %d %d %s\n", seed, mt, mk, eu, m.substr(0, 200).c_str()); } }
         else if (op == "LOCK") {
-            std::string id; in >> id; printf("LOCK %s\n", id.c_str());
+            std::string id; int deflev = -1; std::string q0s = "0"; in >> id >> deflev >> q0s; printf("LOCK %s\n", id.c_str());
             MultibodySystem sys; SimbodyMatterSubsystem matter(sys); GeneralForceSubsystem forces(sys);
             Body::Rigid body(MassProperties(1.0, Vec3(0.1, 0, 0), Inertia(1)));
             MobilizedBody::Pin b1(matter.Ground(), Transform(), body, Transform(Vec3(0, 1, 0)));
             MobilizedBody::Slider b2(b1, Transform(), body, Transform(Vec3(0, 1, 0)));
             Motion::Sinusoid mo(b1, Motion::Position, 0.5, 1.5, 0.25);
+            b1.setDefaultAngle(num(q0s)); if (deflev >= 0) b1.lockByDefault(Motion::Level(deflev));
             State s = sys.realizeTopology(); sys.realizeModel(s); mo.disable(s);
-            while (std::getline(std::cin, line)) {
-                std::istringstream in2(line); std::string o; in2 >> o; if (o == "END") { printf("END\n"); break; }
-                std::string a, b; in2 >> a >> b;
+            bool initial = true;
+            while (initial || std::getline(std::cin, line)) {
+                std::string o, a, b;
+                if (initial) { o = "INIT"; initial = false; }      // status of the default State before any operation
+                else { std::istringstream in2(line); in2 >> o; if (o == "END") { printf("END\n"); break; } in2 >> a >> b; }
                 try {
-                    if (o == "LK") b1.lock(s, Motion::Level(atoi(a.c_str())));
+                    if (o == "INIT") {}
+                    else if (o == "RS") { s = sys.getDefaultState(); sys.realizeModel(s); mo.disable(s); }   // a new default State
+                    else if (o == "LK") b1.lock(s, Motion::Level(atoi(a.c_str())));
                     else if (o == "LA") b1.lockAt(s, num(b), Motion::Level(atoi(a.c_str())));
                     else if (o == "UL") b1.unlock(s);
                     else if (o == "Q") b1.setOneQ(s, 0, num(a));
